@@ -7,7 +7,7 @@ COMMON_ASSUME = [
     "S3 closed-world class table: method/property resolution follows the classes found in /repo/src",
     "S4 evaluation order / exception propagation / finally / short-circuit as in the language reference",
     "S5 functions run to completion without interleaving (sequential contracts)",
-    "S6 logging calls and exception message formatting are effect-free and do not raise (dropped by the extraction)",
+    "S6 logging calls are effect-free and do not raise (dropped by the extraction); the value of an exception message is dropped, its argument expressions are evaluated for their outcomes where they are inside the subset",
     "S-bytes every bytes value is a sequence of integers in 0..255",
 ]
 
